@@ -10,7 +10,10 @@ class K1(Component):
 
 
 class K2(Component):
-    pass
+    """a component that is falsy as an object (container-like, currently empty)"""
+
+    def __len__(self):
+        return 0
 
 
 KT = [K1, K2]
@@ -117,6 +120,10 @@ def class_component_step(ft: int, fr: int, fo: int, ti: int, inst_has: bool) -> 
         return hx.end(hx.fail("class-level operation changed an instance's own components"))
     if (T in inst) != inst_has:
         return hx.end(hx.fail("class component visible through an instance's own components"))
+    own = inst_comps[0][1] if inst_has else None
+    if inst[T] is not own or inst.get_component(T) is not own:
+        return hx.end(hx.fail("an instance's component lookup does not return its own component (or None)",
+                              got=repr(inst[T])))
     if op == 'attach' and has:
         hx.reach('duplicate_rejected')
         if raised != 'ValueError' or not _same_view(before, after):
@@ -248,6 +255,15 @@ def default_tag(tA: int, tC: int, tS: int, tE: int, which: int, explicit: bool, 
     for i, c2 in enumerate(classes):
         if c2.tag != expect_cls[i]:
             return hx.end(hx.fail("instance creation changed a class default", cls=c2.__name__))
+    # a class defined AFTER its ancestors' defaults were changed starts with the default NONE (0), not the ancestor's tag
+    class Late(A):
+        pass
+
+    class LateEnv(E):
+        pass
+    if Late.tag != 0 or LateEnv.tag != 0 or Late("l", m).tag != 0:
+        return hx.end(hx.fail("a class defined later inherited an ancestor's default tag", late=Late.tag, late_env=LateEnv.tag,
+                              ancestors=(tA, tE)))
     # changing the default later does not retag existing instances, and is picked up by new ones
     cls.tag = tS + 1
     if inst.tag != want:
